@@ -126,6 +126,12 @@ static int common_post(const fc_desc* d, sk_result* out, const char* stage)
 		sk_violate(out, cls, "%s (%s): write outside an exactly sized block (red-zone canary damaged)", d->name, stage);
 		return 0;
 	}
+	if (C.claim)
+	{
+		snprintf(cls, sizeof(cls), "outside_caller_buffer:%s", d->name);
+		sk_violate(out, cls, "%s (%s): %s", d->name, stage, C.claim);
+		return 0;
+	}
 	if (C.damage && !mem_only)
 	{
 		snprintf(cls, sizeof(cls), "damage_after_failed_call:%s", d->name);
